@@ -113,6 +113,14 @@ def hostile_modules(draw, pep701=True):
             lines.append('v%d = %s' % (i, draw(st.sampled_from(['1 .__class__', '(1).real + 2', '1 + 2 * 3', 'True + True', '2 ** 8 - 1', '1 if 2 else 3',
                                                                 '0x10 + 0o7', '1e3 * 2', '"a" * 3', '1 + __import__("%s").x' % CANARY, '(1, 2)[0] + 3',
                                                                 '1 + (lambda: 2)()', 'len("ab") + 1']))))
+        elif k == 9 and draw(st.booleans()):
+            # the names whose values the minifier looks at (a literal __all__ is read to keep exported names): anything that is not a plain
+            # string literal there is input text like any other
+            payload = draw(st.sampled_from(['__import__("%s")' % CANARY, 'open("%s", "w")' % CANARY, 'dir()', 'f()', 'x', '[n for n in dir()]', '__import__("%s").names' % CANARY,
+                                            '(lambda: "a")()', 'str(1)', '"a".upper()']))
+            form = draw(st.sampled_from(['__all__ = ["a"] + [%s]', '__all__ = ["a"] + %s', '__all__ = [%s]', '__all__ = ("a", %s)', '__all__ += [%s]', '__all__: list = ["a"] + [%s]',
+                                         '__all__ = ["a"] * %s', '__all__ = [*%s, "a"]', '__all__ = ["a", "b"][%s:]', '__slots__ = ("a",) + (%s,)', '__all__ = list(%s)']))
+            lines.append(form % payload)
         else:
             lines.append('d%d = {%r: %r, f"%s": 1}' % (i, s, draw(hostile_bytes(3)), fliteral(draw(hostile_str(2)))))
     return '\n'.join(lines) + '\n'
